@@ -31,7 +31,11 @@ ObsEq(ea, eb) ==
 \* size() may differ only where the property says so: C19 on ttl containers (a no-effect
 \* call may have discarded expired entries)
 SizeEq(g, ea, eb) ==
-  (g.mode = "C19" /\ g.kind \in TtlKinds) \/ (ea.size = eb.size /\ ea.empty = eb.empty)
+  \/ (g.mode = "C19" /\ g.kind \in TtlKinds)
+  \* C18 on tlru / utlru: a range call and its single calls may discard expired entries at different
+  \* moments (e.g. once per call), which shows in size() only; ut_map / ut_set purge deterministically
+  \/ (g.mode = "C18" /\ g.kind \in {"tlru", "utlru"})
+  \/ (ea.size = eb.size /\ ea.empty = eb.empty)
 
 \* results of the same single call on both sides
 RetEq(g, ea, eb) ==
